@@ -11,6 +11,7 @@
 package main
 
 import (
+	"time"
 	"fmt"
 	"strings"
 
@@ -670,6 +671,26 @@ func programs(len0, len1 int, policies [][2]int, fullKeeper bool) []program {
 			}
 			for _, pol := range policies {
 				for _, k := range keepers {
+					// a full answer queue blocks the pipelining caller until the
+					// base call returns; with a gate that is never opened that is
+					// a deadlock by construction, not a finding
+					leave := false
+					for _, ko := range k {
+						if ko.act == kLeave {
+							leave = true
+						}
+					}
+					if leave {
+						pipes := 0
+						for _, o := range threads[0] {
+							if o == opPipe {
+								pipes++
+							}
+						}
+						if pipes > pol[1] {
+							continue
+						}
+					}
 					out = append(out, program{threads: threads, keeper: k, max: pol[0], q: pol[1]})
 				}
 			}
@@ -751,6 +772,7 @@ func main() {
 	vlib.Main(vlib.Spec{
 		ID:    "C12",
 		Level: "model_checking",
+		CaseTimeout: 30 * time.Minute,
 		Rule:  "programs = caller thread T0 (1-3 ops over {5 call behaviours, pipelined call on the latest answer, Release}), optional second caller T1 with its own client handle, a gatekeeper thread (gate order permutations; each gate opened, its call context cancelled, or left closed so that only Shutdown's cancellation can end the call), policies MaxConcurrentCalls x AnswerQueueSize; fixed epilogue (release remaining handles => server Shutdown, collect every answer). For each program all schedules of the real server/, answer.go, capability.go up to the preemption bound. Non-trivial = more than one schedule or outcome. states = sum over programs of distinct scheduling configurations; transitions = scheduling steps; traces = executions on the implementation.",
 		Assumptions: []string{
 			"scheduling points at every sync operation are sufficient (data-race freedom checked separately by a free-running -race pass, which decides nothing)",
@@ -767,8 +789,8 @@ func main() {
 				}
 			}
 			return []vlib.Family{
-				family("T0<=2,T1<=1,pb1,free2", programs(2, 1, two, false), vsched.Config{MaxPreempt: 1, MaxFree: 2, MaxDev: 0, MaxSteps: 3000}),
-				family("T0<=3,pb1,free1", programs(3, 0, two, false), vsched.Config{MaxPreempt: 1, MaxFree: 1, MaxDev: 0, MaxSteps: 3000}),
+				family("T0<=2,T1<=1,dev2", programs(2, 1, two, false), vsched.Config{MaxPreempt: 1, MaxFree: 1, MaxTotal: 2, MaxDev: 0, MaxSteps: 3000}),
+				family("T0<=3,dev1", programs(3, 0, two, false), vsched.Config{MaxPreempt: 1, MaxFree: 1, MaxTotal: 1, MaxDev: 0, MaxSteps: 3000}),
 			}
 		},
 	})
